@@ -745,13 +745,13 @@ out:
     /* Free the buffers allocated in prepare_fragments_for_decode */
     if (realloc_bm != 0) {
         for (i = 0; i < k; i++) {
-            if (realloc_bm & (1 << i)) {
+            if (realloc_bm & (1ULL << i)) {
                 free(data[i]);
             }
         }
 
         for (i = 0; i < m; i++) {
-            if (realloc_bm & (1 << (i + k))) {
+            if (realloc_bm & (1ULL << (i + k))) {
                 free(parity[i]);
             }
         }
@@ -963,13 +963,13 @@ out:
     /* Free the buffers allocated in prepare_fragments_for_decode */
     if (realloc_bm != 0) {
         for (i = 0; i < k; i++) {
-            if (realloc_bm & (1 << i)) {
+            if (realloc_bm & (1ULL << i)) {
                 free(data[i]);
             }
         }
 
         for (i = 0; i < m; i++) {
-            if (realloc_bm & (1 << (i + k))) {
+            if (realloc_bm & (1ULL << (i + k))) {
                 free(parity[i]);
             }
         }
